@@ -197,3 +197,14 @@ Definition shipped_wf (lines : list string) (tt : list EngineSM.row) (structs pr
   | Some (_, t) => wf_elements16 t (with_user a (with_evsigs sigs (elements_of (table_of tt) structs protos msgs)))
   | None => false
   end.
+
+(* the domain of the for-all-models USER-tag theorems of the whole files TEMPLATEStateMachine.py / TEMPLATEStateMachine.h (C07_wf_out_TEMPLATEStateMachine_py / _h):
+   names_ok_x (alphanumeric names; initial state, transition lists, table cells and the oracle's signature strings free of '{', backslash, CR -- syntactic)
+   and user_lines_plain, under the signature oracle sigs and the user-tag assignment a; texts_ok07 / dyn_ok07: computed on the file *)
+Definition names_ok_shipped_x (lines : list string) (tt : list EngineSM.row) (structs protos msgs : list string)
+                              (sigs : list (string * (string * string))) (a : list (string * string)) : bool :=
+  match shipped16 dict0 lines with
+  | Some (_, t) => let e := with_user a (with_evsigs sigs (elements_of (table_of tt) structs protos msgs)) in
+                   texts_ok07 (strip t) && dyn_ok07 (strip t) && names_ok_x (strip t) e && user_lines_plain e (strip t)
+  | None => false
+  end.
